@@ -9,6 +9,14 @@ let qof n d =
   let n = BigZ.of_string (atom n) and d = BigZ.of_string (atom d) in
   let g = BigZ.gcd n d in let g = if BigZ.sign g = 0 then BigZ.one else g in
   { Model.qnum = coqz_of_z (BigZ.div n g); Model.qden = pos_of_z (BigZ.div d g) }
+(* a portion given as text: Lex.parse_portion (machine.ParsePortionSpecific); unparsable text and a zero denominator
+   become a portion outside [0,1], which Sem rejects where Go returns the error (compile / invalid vars / resolve) *)
+let bad_portion = { Model.qnum = coqz_of_z (BigZ.of_int 2); Model.qden = pos_of_z BigZ.one }
+let qnormq (q : Model.q) =
+  let n = z_of_coqz q.Model.qnum and d = z_of_pos q.Model.qden in
+  let g = BigZ.gcd n d in let g = if BigZ.sign g = 0 then BigZ.one else g in
+  { Model.qnum = coqz_of_z (BigZ.div n g); Model.qden = pos_of_z (BigZ.div d g) }
+let qtext s = match Model.parse_portion (cs s) with Some q -> qnormq q | None -> bad_portion
 let acc = function L [A "alit"; s] -> Model.AccLit (cs s) | L [A "avar"; s] -> Model.AccVar (cs s) | _ -> failwith "acc"
 let asset = function L [A "slit"; s] -> Model.AssetLit (cs s) | L [A "svar"; s] -> Model.AssetVar (cs s) | _ -> failwith "asset"
 let rec mon = function
@@ -18,11 +26,11 @@ let rec mon = function
   | L [A "msub"; l; r] -> Model.MonSub (mon l, mon r)
   | _ -> failwith "mon"
 let portion = function
-  | L [A "pc"; n; d] -> Model.PConst (qof n d) | L [A "pv"; x] -> Model.PVar (cs x) | L [A "prem"] -> Model.PRemaining
+  | L [A "pc"; n; d] -> Model.PConst (qof n d) | L [A "pcs"; s] -> Model.PConst (qtext s) | L [A "pv"; x] -> Model.PVar (cs x) | L [A "prem"] -> Model.PRemaining
   | _ -> failwith "portion"
 let valexpr = function
   | L [A "vacc"; s] -> Model.VEAcc (cs s) | L [A "vasset"; s] -> Model.VEAsset (cs s) | L [A "vnum"; n] -> Model.VENum (zarg n)
-  | L [A "vstr"; s] -> Model.VEStr (cs s) | L [A "vpor"; n; d] -> Model.VEPortion (qof n d) | L [A "vmon"; m] -> Model.VEMon (mon m)
+  | L [A "vstr"; s] -> Model.VEStr (cs s) | L [A "vpor"; n; d] -> Model.VEPortion (qof n d) | L [A "vpors"; s] -> Model.VEPortion (qtext s) | L [A "vmon"; m] -> Model.VEMon (mon m)
   | L [A "vvar"; x] -> Model.VEVar (cs x) | _ -> failwith "valexpr"
 let rec source = function
   | L [A "sacc"; a; od] ->
@@ -64,7 +72,7 @@ let decl = function
 let value = function
   | L [A "account"; s] -> Model.VAccount (cs s) | L [A "asset"; s] -> Model.VAsset (cs s) | L [A "number"; n] -> Model.VNumber (zarg n)
   | L [A "string"; s] -> Model.VString (cs s) | L [A "monetary"; a; n] -> Model.VMonetary (cs a, Some (zarg n))
-  | L [A "portion"; n; d] -> Model.VPortion (qof n d) | _ -> failwith "value"
+  | L [A "portion"; n; d] -> Model.VPortion (qof n d) | L [A "portions"; s] -> Model.VPortion (qtext s) | _ -> failwith "value"
 
 let str l = string_of_chars l
 (* machine.NewStringFromValue *)
@@ -111,7 +119,11 @@ let () = register "nslex" (fun c ->
   | L [A "lex"; s] ->
     let b x = A (if x then "true" else "false") in
     let s = cs s in
-    L [b (Model.valid_address s); b (Model.valid_asset s); b (Model.lexer_asset s && Model.valid_asset s)]
+    let por = (match Model.parse_portion s with
+      | Some q when (BigZ.sign (z_of_coqz q.Model.qnum) >= 0 && BigZ.leq (z_of_coqz q.Model.qnum) (z_of_pos q.Model.qden)) ->
+        let q = qnormq q in "ok " ^ string_of_coqz q.Model.qnum ^ "/" ^ BigZ.to_string (z_of_pos q.Model.qden)
+      | _ -> "err") in
+    L [b (Model.valid_address s); b (Model.valid_asset s); b (Model.lexer_asset s && Model.valid_asset s); S por]
   | _ -> failwith "bad lex case")
 
 (* ---- nstx: (tx <force> ((src dst asset amt)...) ((acc asset bal)...)) -> (ok (postings)) | (err class) | (panic)
